@@ -10,7 +10,7 @@ from harness import gen, model, ref
 from harness.model import T
 from harness.props.c01 import compare_load, load_outcome
 from harness.props.c05 import plain_doc
-from harness.props import v1streams
+from harness.props import v1streams, reach
 
 EXTRA_POOL = ['zzz', 'extra_key', 'extraKey', 'Extra-Key', 'X', 'unknown field', 'q1', '__other__', 'élan', 'a.b', 'x[0]', '',
               'ZZ_TOP', 'né', '1abc', 'with"quote', "it's", 'UPPER', 'tag', '__tag__x']
@@ -98,6 +98,27 @@ def draw_unknown(rng, fnames, has_tag, tag_key, counts=(0, 1, 1, 2, 3), exclude=
     return U
 
 
+TAG_KEY_SPELLINGS = ['type', 'kind', 'my tag']
+
+
+def untagged_tag_key(trng, tinfo, p=0.35):
+    """An UNTAGGED class may still state Meta.tag_key (it only says under which key tags of Union members travel); drawn from `trng`,
+    a generator of its own.  Returns the tag key in force for the class."""
+    tmeta = tinfo.get('meta') or {}
+    if tmeta.get('tag') is None and trng.random() < p:
+        tmeta = dict(tmeta, tag_key=trng.choice(TAG_KEY_SPELLINGS))
+        tinfo['meta'] = tmeta
+    return tmeta.get('tag_key') or '__tag__'
+
+
+def add_tag_key_spelling(trng, U, has_tag, tag_key, fnames, p=0.3):
+    """for a class WITHOUT a tag the tag key ('__tag__' or the Meta.tag_key in force) is a key like any other: when it maps to no
+    field it is an unknown key — rejected under a raise policy, captured by a CatchAll field and written back, dropped otherwise"""
+    if not has_tag and trng.random() < p and unknown_for(tag_key, fnames) and tag_key not in U:
+        U[tag_key] = trng.choice(['t', 'Circle', 1, None, {'a': 1}])
+    return U
+
+
 def with_unknown(rng, inner, U):
     """the target's part of the document with the pairs of U inserted at random positions"""
     items = list(copy.deepcopy(inner).items())
@@ -137,18 +158,27 @@ def inner_doc(doc, depth):
     return cur
 
 
+REACH_OFFSET = 30_000_000
+
+
 def run(ctx: C.Ctx):
-    v1streams.run_streams(ctx, run_default, run_v1)
+    if ctx.only is None or ctx.only < REACH_OFFSET:
+        v1streams.run_streams(ctx, run_default, run_v1)
+    if ctx.only is None or ctx.only >= REACH_OFFSET:
+        # third stream: the class that receives the unknown keys is reached through a tagged Union / a TypedDict value / ...
+        run_reach(ctx)
 
 
 def run_default(ctx: C.Ctx):
+    import random
     from dataclass_wizard import fromdict, asdict
     from dataclass_wizard.errors import UnknownKeysError
     rng = ctx.rng
     gen.SUBS = False
     ctx.rule = ('policy in {ignore, raise (declared on the class itself or cascading from the root), catch-all, catch-all with default} × nesting '
                 'depth 0..2 × a complete document plus a set U of 0..3 extra keys none of whose casing-normalisations reaches a field (near-miss '
-                'spellings, non-identifiers, the tag key of tagged classes) × the same call repeated 1..3 times × multi-step history over views of '
+                'spellings, non-identifiers, the tag key of tagged classes; for UNTAGGED classes — with or without a Meta.tag_key of their own — '
+                'also a key spelled exactly like the tag key in force, which is then an unknown key like any other) × the same call repeated 1..3 times × multi-step history over views of '
                 'the same class (through the case root, through a second root class with or without a raise policy of its own, loaded on its own; '
                 'before or after one another, each view with its own U and judged by the policy effective in that view), default engine: outcome '
                 'vs the specification, vs the Lean model, and to_dict(from_dict(d)) for catch-all. Non-trivial = distinct (class, document) with U non-empty.')
@@ -162,6 +192,8 @@ def run_default(ctx: C.Ctx):
         catch = policy in ('catchall', 'catchall-default')
         where = 'root' if policy == 'raise' and depth > 0 and rng.random() < 0.5 else 'own'
         ty, target = gen_case(rng, policy, depth, where)
+        trng = random.Random(f'{ctx.prop_id}:{ctx.seed}:tag-key-spelling:{i}')
+        untagged_tag_key(trng, target['info'])
         plan = plan_views(rng, depth)
         sec_raise = (not catch) and rng.random() < 0.5
         sec_name = model.fresh('S')
@@ -206,7 +238,7 @@ def run_default(ctx: C.Ctx):
             ignored_before = set()
             inner_base = inner_doc(base, depth)
             for v in views:
-                v['U'] = draw_unknown(rng, fnames, has_tag, tag_key, exclude=())
+                v['U'] = add_tag_key_spelling(trng, draw_unknown(rng, fnames, has_tag, tag_key, exclude=()), has_tag, tag_key, fnames)
                 if v['policy'] == 'ignore':
                     ignored_before |= set(v['U'])
                 inner_u = with_unknown(rng, inner_base, v['U'])
@@ -484,6 +516,7 @@ def eval_view_v1(ctx, kind, case, cls_v, v, target, built, src, has_tag, tag_key
 
 
 def run_v1(ctx: C.Ctx):
+    import random
     from dataclass_wizard import fromdict, asdict
     from dataclass_wizard.errors import UnknownKeysError, JSONWizardError
     rng = v1streams.sub_rng(ctx)
@@ -507,6 +540,9 @@ def run_v1(ctx: C.Ctx):
         depth = rng.choice([0, 0, 1, 2])
         ty, target, where, facts = gen_case_v1(rng, policy, depth, nm)
         tinfo = target['info']
+        trng = random.Random(f'{ctx.prop_id}:{ctx.seed}:v1:tag-key-spelling:{j}')
+        if depth == 0 or facts['can_own']:
+            untagged_tag_key(trng, tinfo)       # (a nested class takes tag_key from the main class: own Meta only where it is complete)
         catch = policy in ('catchall', 'catchall-default')
         history = 'load-first'
         if catch and rng.random() < 0.45:
@@ -554,7 +590,7 @@ def run_v1(ctx: C.Ctx):
                     views.append(v)
             inner_base = inner_doc(base, depth)
             for v in views:
-                v['U'] = draw_unknown(rng, fnames, has_tag, tag_key, counts=(0, 1, 1, 1, 2, 3))
+                v['U'] = add_tag_key_spelling(trng, draw_unknown(rng, fnames, has_tag, tag_key, counts=(0, 1, 1, 1, 2, 3)), has_tag, tag_key, fnames)
                 inner_b = respell(rng, inner_base, tinfo)
                 inner_u = with_unknown(rng, respell(rng, inner_base, tinfo), v['U'])
                 if v['view'] == 'root':
@@ -745,3 +781,178 @@ def check_v1(ctx, kind, case, rep, policy, out, base_out, U, depth, target, buil
             want = ref.dflt_value(cf['dflt']) if cf.get('dflt') is not None else {}
             if not ref.same_typed(got, want):
                 ctx.fail(kind, case, f'call #{rep}: no unknown keys, catch-all field holds {got!r}, expected {want!r}', key=key, detail=src)
+
+
+# --------------------------------------------------------------------------- third stream: ways of reaching the class (default engine)
+
+REACH_POLICIES = ['ignore', 'raise-root', 'raise-root', 'raise-root', 'raise-own', 'catchall', 'catchall-default']
+
+
+def _dumped_at(back, path):
+    """the part of a to_dict output that belongs to document position `path` (field names may be written in camelCase)"""
+    cur = back
+    for s_ in path:
+        if isinstance(cur, dict):
+            cur = cur[s_] if s_ in cur else cur[v1streams.camel(s_)]
+        else:
+            cur = cur[s_]
+    return cur
+
+
+def _loaded_at(y, path):
+    for s_ in path:
+        y = getattr(y, s_) if (isinstance(s_, str) and not isinstance(y, dict)) else y[s_]
+    return y
+
+
+def run_reach(ctx: C.Ctx):
+    from dataclass_wizard import fromdict, asdict
+    from dataclass_wizard.errors import UnknownKeysError
+    from harness.props.c13 import with_auto_tags
+    rng = v1streams.sub_rng(ctx, 'reach')
+    gen.SUBS = False
+    ctx.rule += (' || REACH STREAM (default engine): main classes whose holder fields reach the member classes directly / through list / '
+                 'Optional / dict, through Union[A, B(, None)] of tagged dataclasses (explicit Meta.tag or auto_assign_tags, default or custom '
+                 'tag key), lists / dicts of such Unions and through values of a TypedDict; policy in {ignore, raise cascading from the main '
+                 'class, raise declared on the member, CatchAll without / with default} x ONE dataclass object of a complete document (the '
+                 'main object or any nested one) receiving a set U of 0..3 unknown keys — for objects of untagged classes also a key spelled '
+                 'exactly like the (default / custom / cascaded) tag key — x 1..3 repetitions: under a raise policy UnknownKeysError naming '
+                 'only keys of U and the class of that object, whatever machinery sits between it and the main class; otherwise the load '
+                 'equals the one without U except that a CatchAll field of that object holds exactly U in document order and to_dict writes U '
+                 'back; vs the Lean model.')
+    n = ctx.quick(260, 3000)
+    o = gen.Opts(meta_keys=[], meta_prob=0.0, allow_union=False, allow_nt=False, allow_td=False, allow_cls=False,
+                 leaves=['int', 'str', 'bool', 'float', 'any'], containers=['list', 'dict'], max_fields=3, wizard_prob=0.7,
+                 py_wizard_prob=0.0)
+    reqs, pend = [], []
+    for j in range(n):
+        i = REACH_OFFSET + j
+        if ctx.done(i):
+            break
+        base_nm = v1streams.Namer(j)
+
+        def nm(prefix='K', base_nm=base_nm):
+            return base_nm('Q' + prefix)
+        policy = rng.choice(REACH_POLICIES)
+        catch = policy in ('catchall', 'catchall-default')
+
+        def mk():
+            ty_ = gen.gen_cls(rng, 1, o, name=nm('T'))
+            info = ty_['info']
+            info['meta'] = {'raise_on_unknown_json_key': True} if policy == 'raise-own' else None
+            if catch:
+                cf = {'name': 'extras_fld', 'catch_all': True}
+                if policy == 'catchall-default':
+                    cf['dflt'] = ['lit', None] if rng.random() < 0.5 else ['dict']
+                    cf['factory'] = cf['dflt'][0] != 'lit'
+                    info['fields'].append(cf)
+                else:
+                    ix = next((k_ for k_, f in enumerate(info['fields']) if f.get('dflt') is not None), len(info['fields']))
+                    info['fields'].insert(ix, cf)
+                ty_['ftys'].append(['extras_fld', T('any')])
+            return ty_
+        ty, facts = reach.gen_root(rng, nm, mk, root_meta={'raise_on_unknown_json_key': True} if policy == 'raise-root' else None)
+        try:
+            built = model.Built(ty)
+        except Exception as e:
+            ctx.count('build_error')
+            ctx.notes.setdefault('build_errors', []).append(repr(e)[:300])
+            continue
+        try:
+            base = reach.gen_doc(rng, ty, built)
+            objs = reach.class_objects(ty, base)
+            nested = [x for x in objs if x[0]]
+            path, tnode, _ = rng.choice(nested) if nested and rng.random() < 0.85 else objs[0]
+            tinfo = tnode['info']
+            is_root = not path
+            fnames = [f['name'] for f in tinfo['fields'] if not f.get('catch_all')]
+            has_tag = tnode.get('utag') is not None
+            tag_key = facts['tag_key']
+            U = draw_unknown(rng, fnames, has_tag, tag_key, counts=(0, 1, 1, 1, 2, 3))
+            if not has_tag and rng.random() < 0.3:
+                # an untagged class: the tag key is a key like any other
+                U[tag_key] = rng.choice(['t', 1, None, tinfo['name']])
+            d = copy.deepcopy(base)
+            obj_u = with_unknown(rng, reach.at_path(base, path), U)
+            if is_root:
+                d = obj_u
+            else:
+                reach.at_path(d, path[:-1])[path[-1]] = obj_u
+            reps = rng.choice([1, 2, 3])
+            eff = ('raise' if policy == 'raise-root' or (policy == 'raise-own' and not is_root) else
+                   policy if (catch and not is_root) else 'ignore')
+            if not ctx.begin_case(i):
+                continue
+            case = {'ty': ty, 'doc': repr(d)[:600], 'policy': policy, 'effective': eff, 'U': repr(U), 'at': repr(path), 'target': tinfo['name'],
+                    'reach': facts, 'reps': reps}
+            kind = 'unknown:reach:' + policy
+            ctx.seen(kind, case, nontrivial=bool(U))
+            for sh in facts['shapes']:
+                ctx.count('reach:' + sh)
+            src = dict(src=built.source)
+            Root = built.root
+            base_out = load_outcome(lambda: fromdict(Root, copy.deepcopy(base)))
+            outs = [load_outcome(lambda: fromdict(Root, copy.deepcopy(d))) for _ in range(reps)]
+            if base_out[0] == 'err':
+                ctx.fail(kind, case, f'the complete document without extra keys does not load: {type(base_out[1]).__name__}: {str(base_out[1])[:300]}', detail=src)
+                outs = []
+            for rep, out in enumerate(outs, 1):
+                nf = len(ctx.failures)
+                if eff == 'raise' and U:
+                    if out[0] == 'ok':
+                        ctx.fail(kind, case, f'call #{rep}: document with unknown key(s) {sorted(U)} in the {tinfo["name"]} object at {path!r} was accepted under '
+                                 f'raise_on_unknown_json_key', detail=src)
+                    elif not isinstance(out[1], UnknownKeysError):
+                        ctx.fail(kind, case, f'call #{rep}: unknown key(s) {sorted(U)} in the {tinfo["name"]} object at {path!r}: expected UnknownKeysError, got '
+                                 f'{type(out[1]).__name__}: {str(out[1])[:300]}', detail=src)
+                    else:
+                        e = out[1]
+                        keys = v1streams.unknown_keys_of(e)
+                        if not keys or not set(keys) <= set(U):
+                            ctx.fail(kind, case, f'call #{rep}: UnknownKeysError names {keys!r}, the unknown keys of the document are {sorted(U)}', detail=src)
+                        if e.class_name != tinfo['name']:
+                            ctx.fail(kind, case, f'call #{rep}: UnknownKeysError names class {e.class_name!r}, expected {tinfo["name"]!r}', detail=src)
+                        try:
+                            assert isinstance(str(e), str)
+                        except Exception as ee:            # noqa
+                            ctx.fail(kind, case, f'str(UnknownKeysError) raised {ee!r}', detail=src)
+                elif out[0] == 'err':
+                    ctx.fail(kind, case, f'call #{rep}: load raised {type(out[1]).__name__}: {str(out[1])[:300]} (policy in force {eff}, unknown keys {sorted(U)} '
+                             f'in the {tinfo["name"]} object at {path!r})', detail=src)
+                else:
+                    y, yb = out[1], base_out[1]
+                    y_cmp = y
+                    if catch and not is_root and U:
+                        t_y, t_b = _loaded_at(y, path), _loaded_at(yb, path)
+                        got = t_y.extras_fld
+                        want = [(k_, v_) for k_, v_ in obj_u.items() if k_ in U]
+                        if not (isinstance(got, dict) and list(got.items()) == want and all(ref.same_typed(got[k_], U[k_]) for k_ in U)):
+                            ctx.fail(kind, case, f'call #{rep}: catch-all field of the {tinfo["name"]} object at {path!r} holds {got!r}, expected exactly {dict(want)!r}', detail=src)
+                        else:
+                            try:
+                                tgt = _dumped_at(asdict(y), path)
+                                lost = [k_ for k_ in U if k_ not in tgt or not ref.same_typed(tgt[k_], U[k_])]
+                            except Exception as ee:        # noqa
+                                tgt, lost = repr(ee), list(U)
+                            if lost:
+                                ctx.fail(kind, case, f'call #{rep}: to_dict(from_dict(d)) lost / changed the unknown pair(s) {lost!r} of the object at {path!r}; got {tgt!r}'[:800], detail=src)
+                            # everything else as without U
+                            y_cmp = copy.deepcopy(y)
+                            _loaded_at(y_cmp, path).extras_fld = copy.deepcopy(t_b.extras_fld)
+                    if len(ctx.failures) == nf and not ref.same_typed(y_cmp, yb):
+                        ctx.fail(kind, case, f'call #{rep}: the load with extra keys {sorted(U)} gives {y!r}, without them {yb!r}'[:900], detail=src)
+                if len(ctx.failures) > nf:
+                    break
+            if outs:
+                st = model.StdTables()
+                st.add_json(d)
+                # (the model is told the documented meaning of auto_assign_tags: every Union member answers to its class name, as in C13)
+                mty = with_auto_tags(ty, facts['tag_mode'].startswith('auto'))
+                reqs.append({'op': 'load', 'ty': model.enc_ty(mty), 'doc': model.enc_j(d), 'std': st.build()})
+                pend.append((case, outs[-1], built))
+        finally:
+            built.close()
+    if ctx.model_available:
+        outs_m = ctx.driver.run(reqs)
+        for (case, out, built), o_ in zip(pend, outs_m):
+            compare_load(ctx, 'unknown:reach', case, out, o_, built)
